@@ -1,6 +1,6 @@
 """Configuration of ./check C12 (see cfg/README)."""
 
-PROP = {'drive': ['Metrics'], 'harness_files': ['area_metrics.go', 'area_metrics_os2.go', 'area_metrics_q.go'], 'modules': ['SfntV.Props.C12'],
+PROP = {'drive': ['Metrics'], 'harness_files': ['area_metrics.go', 'area_metrics_os2.go', 'area_metrics_q.go', 'area_metrics_alias.go'], 'modules': ['SfntV.Props.C12'],
  'required_theorems': ['C12_hmtx_roundtrip',
                        'C12_hmtx_encode_ok',
                        'C12_hmtx_roundtrip_any_k',
